@@ -99,9 +99,8 @@ func c11R1(c *Ctx) {
 
 func c11R2(c *Ctx) {
 	p := c.P
-	parse := p.Func(modPath, "doParsing")
+	parse, spec := p.parseFn()
 	name := FuncName(parse)
-	spec := p.Func(modPath, "extractSpecificField")
 	var firsts []ssa.CallInstruction
 	var others []ssa.CallInstruction
 	for _, cl := range Calls(parse) {
@@ -109,10 +108,10 @@ func c11R2(c *Ctx) {
 		if cal == nil {
 			continue
 		}
-		switch cal.Name() {
-		case "extractSpecificField":
+		switch {
+		case cal == spec:
 			firsts = append(firsts, cl)
-		case "extractField", "extractXMLDataField", "parseGroup":
+		case strings.HasPrefix(cal.Name(), "extract") || p.reachesAny(cal, func(f *ssa.Function) bool { return strings.HasPrefix(f.Name(), "extract") }) && cal.Signature.Results().Len() == 0:
 			others = append(others, cl)
 		}
 	}
@@ -173,7 +172,7 @@ func c11R2(c *Ctx) {
 
 func c11R3(c *Ctx) {
 	p := c.P
-	parse := p.Func(modPath, "doParsing")
+	parse, _ := p.parseFn()
 	name := FuncName(parse)
 	t9 := p.Tag("tagBodyLength")
 	isLen9 := func(o *Org) bool {
@@ -257,7 +256,7 @@ func c11R3(c *Ctx) {
 
 func c11R5(c *Ctx) {
 	p := c.P
-	parse := p.Func(modPath, "doParsing")
+	parse, _ := p.parseFn()
 	name := FuncName(parse)
 	add := p.Method(modPath, "FieldMap", "add")
 	isCall := func(fn string, val bool) func(*Atom) bool {
